@@ -3,7 +3,8 @@
 // margin, on the first and on the last line), then every relative vertical move and every
 // scroll with parameters omitted, 0, 1, the distances to the margins +-1, the region height
 // +-1 and huge; the same horizontally for every column up to the last one and for the
-// deferred-wrap state; the saved cursors around alternate-screen switches; and random
+// deferred-wrap state; the saved cursors around alternate-screen switches; the saved cursor on
+// every line relative to every scrolling region (restoring ignores the region); and random
 // histories biased towards those positions.
 package main
 
